@@ -120,6 +120,7 @@ class SdoServer(SdoBase):
 
     def block_download(self, data):
         # We currently don't support BLOCK DOWNLOAD
+        _, self._index, self._subindex = SDO_STRUCT.unpack_from(data)
         logger.error("Block download is not supported")
         self.abort(0x05040001)
 
